@@ -351,7 +351,11 @@ def c05_r5(ctx):
     ctx.saw(f)
     al = norm.aliases(f.node)
     # usequality is (re)assigned only from self._use_block_quality()
-    uq_defs = [norm.canon(v) for v in norm.assigned_names(f.node).get("usequality", []) if v is not None]
+    asg = norm.assigned_names(f.node)
+    uqs = [n_ for n_, vals in asg.items() if any(v is not None and norm.canon(v) == "self._use_block_quality()" for v in vals)]
+    uq = uqs[0] if len(uqs) == 1 else "usequality"
+    uq_defs = [norm.canon(v) if v is not None else "<non-simple binding>" for v in asg.get(uq, [])]
+    mvars = set(n_ for n_, vals in asg.items() if any(v is not None and norm.canon(v) == "self.matcher" for v in vals)) | {"self.matcher"}
     ctx.ob(f, bool(uq_defs) and all(d == "self._use_block_quality()" for d in uq_defs),
            "usequality is always self._use_block_quality()", detail=str(uq_defs))
     fa = guards.Facts(f)
@@ -360,12 +364,12 @@ def c05_r5(ctx):
         for frag in cfgmod.node_exprs(n):
             for c in norm.calls_in(frag):
                 nm = norm.call_name(c)
-                if nm not in ("replace", "skip_to_quality") or norm.canon(norm.receiver(c) or ast.Name(id="")) != "matcher":
+                if nm not in ("replace", "skip_to_quality") or norm.canon(norm.receiver(c) or ast.Name(id="")) not in mvars:
                     continue
                 n_sites += 1
                 arg = c.args[0] if c.args else None
                 facts = fa.at(n) or frozenset()
-                guarded = ("T", "usequality") in facts
+                guarded = ("T", uq) in facts
                 ok = guarded
                 how = "dominated by `usequality`" if guarded else ""
                 if not ok and arg is None:
@@ -380,7 +384,7 @@ def c05_r5(ctx):
                         if dn.kind == "stmt" and isinstance(a, ast.Assign) and any(isinstance(t, ast.Name) and t.id == arg.id for t in a.targets):
                             if isinstance(a.value, ast.Constant) and a.value.value == 0:
                                 continue
-                            if ("T", "usequality") in (fa.at(dn) or frozenset()):
+                            if ("T", uq) in (fa.at(dn) or frozenset()):
                                 continue
                             okdefs = False
                     ok, how = okdefs, "threshold local is 0 unless assigned under `usequality`"
